@@ -232,7 +232,14 @@ class MPS(DNAS):
         :return: the precision-assignement found by the NAS
         :rtype: Dict[str, Dict[str, Any]]
         """
+        # conversion runs the model in eval mode (tracing and shape propagation): restore the
+        # training flags and the sampled coefficients/statistics afterwards
+        modes = [(m, m.training) for m in self.seed.modules()]
+        state = copy.deepcopy(self.seed.state_dict())
         mod, _, _ = convert(self.seed, self._input_example, 'export')
+        self.seed.load_state_dict(state)
+        for m, mode in modes:
+            m.training = mode
         return mod
 
     def summary(self) -> Dict[str, Dict[str, Any]]:
